@@ -409,7 +409,8 @@ Theorem parse_stmt_effect d s st :
   (parse_stmt (VDict d) = Ok st ->
      lower s = lower (name (effect_of st)) /\
      principal st = get K_Principal d /\ not_principal st = get K_NotPrincipal d /\
-     action st = get K_Action d /\ not_action st = get K_NotAction d /\ sid st = get K_Sid d).
+     action st = get K_Action d /\ not_action st = get K_NotAction d /\ sid st = get K_Sid d /\
+     resource st = get K_Resource d /\ not_resource st = get K_NotResource d).
 Proof.
   intros L H. unfold parse_stmt in H. rewrite L in H.
   destruct (effect_norm s) as [e|] eqn:E; cbn [bind] in H; [|discriminate].
